@@ -1,5 +1,6 @@
 mod exec;
 mod hooks;
+mod lin;
 mod checks;
 mod monitor;
 mod pure;
